@@ -37,19 +37,24 @@ def make_copy(edits):
 
 
 def violations_for(prop, facts):
+    """the verdict of the quick check of `prop` on the given facts (same relevance, floor and known-finding logic as
+    engine/qlint/main.py)"""
     spec = P.PROPERTIES[prop]
     known = report.load_known()
-    out = []
+    insts = []
     for rule in spec['rules']:
         for i in P.run_rule(rule, facts, 'quick'):
-            if prop in i.props and i.status == 'violation' and (prop, i.key) not in known:
-                out.append(i)
+            if P.relevant(prop, i):
+                insts.append(i)
+    out = [i for i in insts if i.status == 'violation' and (prop, i.key) not in known]
     by = {}
-    for rule in spec['rules']:
-        for i in P.run_rule(rule, facts, 'quick'):
-            if prop in i.props and (i.status in ('ok', 'violation') or (i.status == 'note' and i.nontrivial)):
-                by[i.rule] = by.get(i.rule, 0) + 1
+    for i in insts:
+        if i.status in ('ok', 'violation') or (i.status == 'note' and (i.nontrivial or 'shape not recognised' in i.detail)):
+            by[i.rule] = by.get(i.rule, 0) + 1
+    failed = {i.rule for i in insts if i.key.endswith('|analysis failed')}
     for rule, floor in spec.get('floors', {}).items():
+        if rule in failed:
+            continue
         if by.get(rule, 0) < floor:
             out.append(report.Inst(rule, '%s|floor' % rule, 'violation', '', 'only %d instances (floor %d)' % (by.get(rule, 0), floor), [prop]))
     return out
